@@ -28,7 +28,7 @@ COMPONENTS = {"real": ["reb_simulation_copy, reb_simulation_diff, reb_binary_dif
 ASSUMPTIONS = ["callbacks are re-attached to the copy before equality is asserted (the function-pointer flag is persisted)",
                "a mutation counts only if it is sticky (the serialiser recomputes some caches); array-sizing fields are only mutated downwards"]
 PROBES = ["with_variational", "with_megno", "unsynchronized_state", "with_tree", "with_display_settings", "mutations_sticky", "mutations_not_sticky",
-          "walltime_mutations_ignored", "pointer_mutations_ignored", "freed_copy_then_stepped_source"]
+          "walltime_mutations_ignored", "pointer_mutations_ignored", "freed_copy_then_stepped_source", "tree_of_copy_checked"]
 
 # dtype codes of reb_binary_field_descriptor
 DT = dict(DOUBLE=0, INT=1, UINT=2, UINT32=3, INT64=4, UINT64=5, VEC3D=7, PARTICLE=8, POINTER=9, POINTER_ALIGNED=10, DP7=11, OTHER=12, END=13, PARTICLE4=15, POINTER_FIXED=16)
@@ -116,6 +116,26 @@ def execute(case, ctx):
         if cfg["integrator"] == nm.split(".")[0][3:] and rb.getf(A, nm) == 0:
             probe("unsynchronized_state"); feats.append("unsync")
 
+    def tree_holds_all(X):
+        """every live particle of X is in a leaf of X's tree (None if X has no tree at all)"""
+        if not rb.getf_ptr(X, "tree_root"):
+            return None
+        n, m, leaves, cells, hsh = rb.tree_check(X)
+        live = sum(1 for i in range(X.N) if X.particles[i].y == X.particles[i].y)
+        return n == 0 and leaves == live
+
+    def same_aux(X, Y, what):
+        """the tree is not persisted, but the modules of a tree configuration walk it: a copy / restored snapshot whose
+        source has every particle in its tree must have that too, or it cannot evolve like the source"""
+        if not uses_tree or not tree_holds_all(X):
+            return True
+        probe("tree_of_copy_checked")
+        h = tree_holds_all(Y)
+        if not h:
+            viol("lockstep", "copy of a tree configuration has %s" % ("no tree" if h is None else "particles missing from its tree"), what, key="lockstep:tree-missing")
+            return False
+        return True
+
     def eq3(X, Y, what):
         """the three forms of equality must all say 'equal'"""
         with rb.quiet():
@@ -139,7 +159,7 @@ def execute(case, ctx):
     with rb.quiet():
         B = A.copy()
         simgen.attach_callbacks(rebound, rb, B, cfg)
-    if not eq3(A, B, "its own copy"):
+    if not eq3(A, B, "its own copy") or not same_aux(A, B, "its own copy"):
         return result()
     # ---- 5. a simulation equals its own restored snapshot -------------------------------------
     ctx.op(101)
@@ -156,7 +176,7 @@ def execute(case, ctx):
             A.save_to_file(p)
             C = rebound.Simulation(p)
         simgen.attach_callbacks(rebound, rb, C, cfg)
-    if not eq3(A, C, "restored snapshot (%s)" % tr):
+    if not eq3(A, C, "restored snapshot (%s)" % tr) or not same_aux(A, C, "restored snapshot (%s)" % tr):
         return result()
     # ---- 2. independence: evolving the copy never changes the source ---------------------------
     ctx.op(102)
